@@ -696,22 +696,25 @@ theorem apply_res {ops : List Op} (hdec : allDecodable ops) {r : Replica} (hp : 
       simp [hd, hp]
 
 /-- clauses of a non-acknowledging observation which shows nothing or an exact prefix -/
-theorem quiet_clauses (ops : List Op) (o : Obs) (hnoack : isAck o = false) (hcalls : o.calls = [])
-    (happ : appliedOk o = true)
+theorem quiet_clauses (ops : List Op) (o : Obs) (hnb : o.burst = false) (hnoack : isAck o = false)
+    (hcalls : o.calls = []) (happ : appliedOk o = true)
     (hobs : o.view = .down ∨ (o.view = .pins (replay (ops.take o.applied)) ∧ o.applied ≤ ops.length)) :
     prefixOk ops o = true ∧ caughtUpOk ops o = true ∧ ackVisibleOk ops o = true ∧ ackDurableOk ops o = true ∧
-    trackerOk ops o = true ∧ appliedOk o = true := by
+    trackerOk ops o = true ∧ appliedOk o = true ∧ trackerOrderOk ops o = true := by
   have htr : trackerOk ops o = true := by
     unfold trackerOk
-    rw [hnoack]
+    rw [hnoack, hnb]
     simp [hcalls]
+  have hto : trackerOrderOk ops o = true := by
+    unfold trackerOrderOk
+    rw [hnb]; rfl
   rcases hobs with hd | ⟨hv, hle⟩
-  · refine ⟨?_, ?_, ?_, ?_, htr, happ⟩
+  · refine ⟨?_, ?_, ?_, ?_, htr, happ, hto⟩
     · unfold prefixOk; rw [hd]
     · unfold caughtUpOk; rw [hd]
     · unfold ackVisibleOk; rw [hnoack]; rfl
     · unfold ackDurableOk; rw [hd]
-  · refine ⟨?_, ?_, ?_, ?_, htr, happ⟩
+  · refine ⟨?_, ?_, ?_, ?_, htr, happ, hto⟩
     · unfold prefixOk; rw [hv]
       exact prefixResult_self ops 0 ops.length _ (Nat.zero_le _) hle
     · unfold caughtUpOk; rw [hv]
@@ -726,7 +729,8 @@ theorem obs_clauses {ops : List Op} (hdec : allDecodable ops) {s : Sys} (hs : SI
     (hr : s[i]? = some r) (e : Ev) (hat : atomicStep s i e = true) :
     prefixOk ops (obsOf ops s i e) = true ∧ caughtUpOk ops (obsOf ops s i e) = true ∧
     ackVisibleOk ops (obsOf ops s i e) = true ∧ ackDurableOk ops (obsOf ops s i e) = true ∧
-    trackerOk ops (obsOf ops s i e) = true ∧ appliedOk (obsOf ops s i e) = true := by
+    trackerOk ops (obsOf ops s i e) = true ∧ appliedOk (obsOf ops s i e) = true ∧
+    trackerOrderOk ops (obsOf ops s i e) = true := by
   have hrinv : RInv true ops r := hs r (List.mem_of_getElem? hr)
   have hr' : RInv true ops (stepR ops r (srcSnapOf s e) e).1 :=
     stepR_inv hdec hrinv _ (srcSnap_good hs e) e (atomicStep_ok hr true (fun _ => hat))
@@ -752,7 +756,7 @@ theorem obs_clauses {ops : List Op} (hdec : allDecodable ops) {s : Sys} (hs : SI
       dsimp only
       rw [hview]
     rw [hobs_eq]
-    refine ⟨?_, ?_, ?_, ?_, ?_, ?_⟩
+    refine ⟨?_, ?_, ?_, ?_, ?_, ?_, rfl⟩
     · unfold prefixOk; dsimp only; rw [hex]; exact prefixResult_self ops 0 ops.length _ (Nat.zero_le _) hle
     · unfold caughtUpOk; dsimp only
       by_cases hall : r.applied + 1 = ops.length
@@ -767,6 +771,7 @@ theorem obs_clauses {ops : List Op} (hdec : allDecodable ops) {s : Sys} (hs : SI
     · unfold appliedOk; simp
   · -- everything else: no tracker calls, the observation is a prefix result
     apply quiet_clauses
+    · rfl
     · unfold isAck mkObs
       dsimp only
       by_cases he : e = .apply
@@ -788,7 +793,7 @@ theorem modelTrace_clauses {ops : List Op} (hdec : allDecodable ops) (evs : List
     (hs : SInv true ops s) (hat : atomicRun ops s evs = true) (hidx : ∀ ie ∈ evs, ie.1 < s.length) :
     ∀ o ∈ modelTrace ops s evs,
       prefixOk ops o = true ∧ caughtUpOk ops o = true ∧ ackVisibleOk ops o = true ∧ ackDurableOk ops o = true ∧
-      trackerOk ops o = true ∧ appliedOk o = true := by
+      trackerOk ops o = true ∧ appliedOk o = true ∧ trackerOrderOk ops o = true := by
   induction evs generalizing s with
   | nil => intro o ho; cases ho
   | cons ie rest ih =>
@@ -805,5 +810,41 @@ theorem modelTrace_clauses {ops : List Op} (hdec : allDecodable ops) (evs : List
       intro ie hie
       rw [step_length]
       exact hidx ie (List.mem_cons_of_mem _ hie)
+
+/-! ### arrival order of tracker calls -/
+
+theorem filter_cid_length_le_one (l : List Call) (hn : (l.map Call.cid).Nodup) (c : Nat) :
+    (l.filter (fun x => x.cid == c)).length ≤ 1 := by
+  induction l with
+  | nil => simp
+  | cons x t ih =>
+    rw [List.map_cons, List.nodup_cons] at hn
+    by_cases hx : (x.cid == c) = true
+    · rw [List.filter_cons_of_pos (p := fun y : Call => y.cid == c) hx]
+      have hnone : t.filter (fun y => y.cid == c) = [] := by
+        rw [List.filter_eq_nil_iff]
+        intro y hy hyc
+        have h1 : x.cid = c := by simpa using hx
+        have h2 : y.cid = c := by simpa using hyc
+        exact hn.1 (List.mem_map.2 ⟨y, hy, by rw [h2, h1]⟩)
+      rw [hnone]; simp
+    · rw [List.filter_cons_of_neg (p := fun y : Call => y.cid == c) hx]
+      exact ih hn.2
+
+theorem perCid_of_perm {d a : List Call} (h : a.Perm d) (hn : (d.map Call.cid).Nodup) (c : Nat) :
+    perCid c a = perCid c d := by
+  unfold perCid
+  have hp : (a.filter (fun x => x.cid == c)).Perm (d.filter (fun x => x.cid == c)) := h.filter _
+  have hl := filter_cid_length_le_one d hn c
+  cases hd : d.filter (fun x => x.cid == c) with
+  | nil => rw [hd] at hp; rw [List.perm_nil.1 hp]
+  | cons y t =>
+    rw [hd] at hl hp
+    have ht : t = [] := by
+      cases t with
+      | nil => rfl
+      | cons z u => simp at hl
+    subst ht
+    rw [List.perm_singleton.1 hp]
 
 end CV.C01
